@@ -20,7 +20,7 @@ LEAN_MODULES = ["Exetera.Props.C06", "Exetera.Witness.C06"]
 THEOREMS = []
 EXHAUSTIVE = {"quick": True, "thorough": True}
 MODES = {"quick": ["jit"], "thorough": ["jit", "nojit", "bounds"], "search": ["jit", "nojit"]}
-CASE_TIMEOUT = 30
+CASE_TIMEOUT = 120
 TECHNIQUE = ("Lean 4 theorems about an executable model of the import transforms (byte-level kernels with checked subscripts) + "
              "translator for the bool literal table + differential correspondence with the real importers and parsers.read_csv")
 LEVEL_TEXT = ("Proof, for every cell text, category table, chunking and validation mode, that the modelled kernels compute the "
@@ -492,7 +492,8 @@ def rand_csv(rng, n):
         col = {"kind": kind, "name": "c%d" % ci}
         if kind in ("categorical", "leaky"):
             d = {k: v for k, v in rand_cats(rng, big=rng.random() < 0.2).items() if csv_safe(k) and k == k.strip()}
-            d = d or {b"a": 1}
+            if not any(len(k) for k in d):      # a table whose longest key is '' gives the reader a zero-byte column budget
+                d[b"a"] = 1
             keys = list(d)
             cells = [rng.choice(keys) if rng.random() < 0.7 or kind == "categorical" and rng.random() < 0.8
                      else rng.choice(keys) + b"x" for _ in range(rows)]
@@ -525,7 +526,15 @@ def rand_csv(rng, n):
     header = b",".join(c["name"].encode() for c in cols)
     maxcell = max([len(unhx(x)) for c in cols for x in c["cells"]] + [1])
     need = max([len(header) + 1 + len(recs[0]) + 1] + [len(r) + 1 for r in recs])
-    crs_min = max(-(-need // (2 * ncols)) + 1, maxcell + 1, 2)
+    # budgets of the reader's staging buffers (C05's territory: regrowth / re-read is not exercised here): a column's bytes
+    # in one window must stay below field_size * chunk_row_size
+    budget = 2
+    for c in cols:
+        fs = {"fixed": c.get("strlen", 1), "bool": 5, "int": 20, "float": 30, "datetime": 32, "date": 10}.get(c["kind"])
+        if fs is None:
+            fs = max(len(unhx(k["k"]).decode()) for k in c["cats"])
+        budget = max(budget, -(-(sum(len(unhx(x)) for x in c["cells"]) + 1) // max(fs, 1)) + 1)
+    crs_min = max(-(-need // (2 * ncols)) + 1, maxcell + 1, budget)
     crs = rng.choice([crs_min, crs_min + 1, 2 * crs_min, 1 << 20])
     return {"op": "c06_csv", "cols": cols, "crs": crs, "_n": n}
 
@@ -560,9 +569,6 @@ def _env():
 
 def new_df(e):
     e["k"] += 1
-    if e["k"] % 200 == 0:       # keep the in-memory HDF5 file small
-        e["s"].close_dataset("ds")
-        e["ds"] = e["s"].open_dataset(e["io"].BytesIO(), "w", "ds")
     return e["ds"].create_dataframe("df%d" % e["k"])
 
 
